@@ -25,6 +25,9 @@ func propC19(c *Ctx, r *Report) {
 	r.Clauses = append(r.Clauses, "nested comment delimiters (E20): in the lexer method that tracks block-comment nesting, every branch that increments or decrements the nesting counter consumes exactly two characters (advance() in the branch or in the enclosing switch's init statement, successful match() in the condition)")
 	c.runNestDelim(r, "lex.nestdelim")
 	r.floor("lex.nestdelim", 2)
+	r.Clauses = append(r.Clauses, "template list ends (E49): every expectation of the '>' that closes a template list goes through the one helper that also splits '>>', '>=' and '>>='")
+	c.runTemplateClose(r, "template.close", "wgsl/internal/parser")
+	r.floor("template.close", 5)
 	r.Clauses = append(r.Clauses, headerSemiClause)
 	c.runHeaderSemicolon(r, "parse.headersemi", "wgsl/internal/parser")
 	r.floor("parse.headersemi", 8)
